@@ -396,6 +396,9 @@ func c27checkObs(self serf.Member, e serf.Event, o c27obs) (sig, msg string) {
 
 var c27logger = log.New(io.Discard, "", 0)
 
+// c27maxBuf: "its last 8 KB" (the statement); invoke.go calls it maxBufSize
+const c27maxBuf = 8 * 1024
+
 // c27nulSig: a NUL byte in a value that is exported to the script's environment
 // makes exec refuse to start the script.
 const c27nulSig = "invoke: script-not-started(NUL byte in environment value)"
@@ -407,7 +410,25 @@ func c27invoke(script string, self serf.Member, e serf.Event) (err error, pan st
 			pan = fmt.Sprint(r)
 		}
 	}()
-	return agent.VInvokeEventScript(c27logger, script, self, e), ""
+	return c27viaHandler(script, self, e), ""
+}
+
+// c27viaHandler runs one script for one event through the exported path the agent uses: a
+// ScriptEventHandler with a single catch-all handler. (No accessor to the unexported
+// invokeEventScript: a refactor of its signature must not make the check unbuildable.) The error
+// is what the handler logs for a failed invocation.
+func c27viaHandler(script string, self serf.Member, e serf.Event) error {
+	var logbuf bytes.Buffer
+	h := &agent.ScriptEventHandler{
+		SelfFunc: func() serf.Member { return self },
+		Scripts:  []agent.EventScript{{EventFilter: agent.EventFilter{Event: "*"}, Script: script}},
+		Logger:   log.New(&logbuf, "", 0),
+	}
+	h.HandleEvent(e)
+	if i := strings.Index(logbuf.String(), "Error invoking script"); i >= 0 {
+		return fmt.Errorf("%s", strings.TrimSpace(logbuf.String()[i:]))
+	}
+	return nil
 }
 
 // ---------------------------------------------------------------------------
@@ -431,6 +452,7 @@ func c27run(ctx *vc.Ctx) {
 	c27invokeMembers(ctx, box, &idx)
 	c27invokePayload(ctx, box, &idx)
 	c27queries(ctx, box, &idx)
+	c27handlerSequences(ctx, &idx)
 }
 
 var c27evNames = []string{"deploy", "load", "", "user", "query", "deploy2", "Deploy", "member-join", "user:deploy"}
@@ -1104,9 +1126,9 @@ func c27query(ctx *vc.Ctx, scn *vc.Scenario, box *c27box, c c27qcase) {
 		// The stdin writer is a goroutine; under the scheduler it only runs when
 		// the invoking thread yields, so make the statements of invokeEventScript
 		// scheduling points and take the writer at the first one after the `go`.
-		vsched.StepsIn("agent.invokeEventScript")
+		vsched.StepsIn("agent.invokeEventScript", "agent.(*ScriptEventHandler).HandleEvent")
 		vsched.Branching(true)
-		ierr = agent.VInvokeEventScript(c27logger, script, self, q)
+		ierr = c27viaHandler(script, self, q)
 		vsched.Branching(false)
 		vsched.Quiesce()
 		sent = n.Tr.TakeSent()
@@ -1151,7 +1173,7 @@ func c27query(ctx *vc.Ctx, scn *vc.Scenario, box *c27box, c c27qcase) {
 			tos = append(tos, p.To)
 		}
 	}
-	keep := c27last(out, agent.VMaxBufSize)
+	keep := c27last(out, c27maxBuf)
 	fits := c27respLen(c27node, c27qLT, c27qID, keep) <= c.limit
 	expect := c.exit == 0 && len(out) > 0 && fits
 	outcome := "no-response"
